@@ -110,6 +110,16 @@ impl ExclusiveExtractor for WebsocketUpgrade {
         rqctx: &RequestContext<Context>,
         request: hyper::Request<Body>,
     ) -> Result<Self, HttpError> {
+        // The upgrade mechanism does not exist before HTTP/1.1: the connection
+        // of an HTTP/1.0 request could never be handed to the handler, so
+        // don't promise the client a protocol switch.
+        if request.version() < http::Version::HTTP_11 {
+            return Err(HttpError::for_bad_request(
+                None,
+                "websocket upgrade requires HTTP/1.1".to_string(),
+            ));
+        }
+
         if !header_list_contains(
             request.headers(),
             header::CONNECTION,
